@@ -59,8 +59,10 @@ def r14_2(ctx: Ctx) -> None:
     cfg = cfg_of(wf.node)
     fl = [c for c in q.calls(wf) if attr_tail(c) == "flush_archive"]
     wh = [c for c in q.calls(wf) if attr_tail(c) == "_write_header"]
+    # the regular commit (not the fallback header a refused session writes before it raises)
+    wh = [c for c in wh if cfg.exit in cfg.reachable_from(q.node_for(wf, c))] or wh
     ctx.need(bool(fl) and bool(wh), "_write_flush shape not recognised")
-    ok = not cfg.reaches(q.node_for(wf, wh[0]), q.node_for(wf, fl[0]))
+    ok = not cfg.reaches(q.node_for(wf, wh[0]), q.node_for(wf, fl[0])) and cfg.reaches(q.node_for(wf, fl[0]), q.node_for(wf, wh[0]))
     # flush happens whenever a folder was initialised: its only guard
     def aborts(cd: ast.AST, pol: bool) -> bool:
         """the fact comes from a guard whose OTHER outcome raises (the whole flush is refused, nothing is written at all)."""
